@@ -25,7 +25,7 @@ class C03(PureCheck):
             "'more buffered'); Unicode scalar values (quick: boundaries + 30k sampled; thorough: all 1,112,064) fed one byte "
             "at a time; end to end: keypresses written to a pipe an Input reads from (a multi-byte key at every offset around the "
             "1024-byte read boundary, a descriptor number above 256) and handed over by unget_bytes in several pieces with a "
-            "request after each piece. Key tables are extracted from the working tree. distinct_nontrivial = nodes x encodings + distinct "
+            "request after each piece (also with the Input's context entered for each request and left again). Key tables are extracted from the working tree. distinct_nontrivial = nodes x encodings + distinct "
             "streams + scalars")
     exhaustive = {"quick": False, "thorough": False}
     assumptions = ("the key tables of the working tree define 'recognised sequence' and 'table name'",
@@ -144,6 +144,9 @@ class C03(PureCheck):
                 items = [rng.choice(pool) for _ in range(rng.randrange(3, 8))]
                 pieces = [rng.randrange(1, 4) for _ in range(3)]
                 yield {"op": "pipe", "items": [list(x) for x in items], "enc": enc, "pieces": pieces}
+                if k % 2 == 0:
+                    # the same with the Input's context entered for each request and left again (on a pty)
+                    yield {"op": "pipe", "items": [list(x) for x in items], "enc": enc, "pieces": pieces, "ctx": 1}
         # scalar values
         cps = [0x20, 0x7E, 0x7F, 0x80, 0x7FF, 0x800, 0xFFF, 0x1000, 0xD7FF, 0xE000, 0xFFFD, 0xFFFF, 0x10000, 0x3FFFF, 0x40000, 0xFFFFF, 0x100000, 0x10FFFF]
         if tier == "quick":
@@ -172,7 +175,7 @@ class C03(PureCheck):
         if inp["op"] == "pipe":
             ev = dict(inp)
             if inp.get("pieces"):
-                ev.update(keylib.run_unget(T, [bytes(x) for x in inp["items"]], inp["pieces"], inp["enc"], self.pipe))
+                ev.update(keylib.run_unget(T, [bytes(x) for x in inp["items"]], inp["pieces"], inp["enc"], self.pipe, ctx=bool(inp.get("ctx"))))
             else:
                 ev.update(keylib.run_pipe(T, [bytes(x) for x in inp["items"]], inp["enc"], self.pipe, highfd=bool(inp.get("highfd"))))
             return ev
